@@ -520,6 +520,14 @@ impl DrawState {
             return Ok(());
         }
 
+        // Rows that have scrolled off the top of the screen can neither be erased nor padded: the
+        // region that is redrawn is never taller than the terminal (`LineAdjust::Clear` can push the
+        // count past the height when lines of finished bars are kept above a live frame).
+        let screen_height = VisualLines::from(term.height());
+        if *bar_count > screen_height {
+            *bar_count = screen_height;
+        }
+
         if !self.lines.is_empty() && self.move_cursor {
             // Move up to first line (assuming the last line doesn't contain a '\n') and then move to then front of the line
             term.move_cursor_up(bar_count.as_usize().saturating_sub(1))?;
